@@ -275,6 +275,23 @@ func propRegistry() map[string]PropSpec {
 	})
 
 	add(PropSpec{
+		ID: "C15",
+		Harnesses: []HarnessSpec{
+			{Pkg: "server", Fn: "Harness_C15_proxy", Init: []string{"util", "store", "compress", "cache", "location", "upstream", "server"}, Reach: []string{"C15.upstream-error", "C15.upstream-ok"}},
+			{Pkg: "server", Fn: "Harness_C15_not_found", Init: []string{"util", "store", "compress", "cache", "location", "upstream", "server"}, Reach: []string{"C15.no-location", "C15.no-upstream", "C15.found"}},
+		},
+		Explanation: "Partial: symbolic execution of the real NewProxy closure (with elton's Context, pike's location/upstream registries and the location header merging executed from source) for every combination of client conditional / Range / Accept-Encoding headers present or not, cache status fetching / hit-for-pass / passed, upstream Accept-Encoding option, path rewriter, and upstream outcome (response 200, or 304 / 206 when the RFC 7232/7233 precondition holds on what was actually forwarded, error, deadline exceeded). Decided: what the upstream stub receives (method, path, query, headers, configured additions, validators and Range withheld exactly for fetching requests), that the request is restored afterwards on every path, the response object handed on (status, headers minus the four dropped ones plus configured ones, body, compress settings), the context reset, 504 for a proxy timeout, 503/502 with no upstream contact when no location / upstream matches, and that a fetching request can never yield a 304 or 206.",
+		Assumptions: []string{
+			"the reverse proxy (httputil.ReverseProxy, hop-by-hop handling, body streaming) is a stub that snapshots the request and writes a response; upstream contract: status 304 only if If-None-Match/If-Modified-Since was forwarded, 206 only if Range was forwarded",
+			"the rewrite language (regexp capture + strings.Replacer) and query merging (net/url) are library code: the rewriter is a stub replacing URL.Path, query additions are not exercised",
+			"elton's Fresh computation (the client's own 304) is outside; what is decided is that the client's validators are back in the request when NewProxy returns",
+			"location response headers that themselves add Cache-Control / Set-Cookie (operator override) are not exercised",
+		},
+		Encoded: []string{"server.NewProxy", "server.getCacheStatus", "server.setHTTPCacheMaxAge", "server.getCacheMaxAge", "server.setHTTPResp", "location.(*Location).AddRequestHeader", "location.(*Location).AddResponseHeader", "location.(*Location).mergeHeader", "location.Get", "upstream.Get", "cache.NewHTTPResponse"},
+		Bounds:  map[string]string{"request headers": "each of If-None-Match, If-Modified-Since, Range, If-Range, Accept-Encoding present or absent", "outcomes": "200 / 304 / 206 / error / timeout"},
+	})
+
+	add(PropSpec{
 		ID: "C16",
 		Harnesses: []HarnessSpec{
 			{Pkg: "compress", Fn: "Harness_C16_compress_reset", Init: []string{"util", "compress"}, Reach: []string{"C16.compress.end"}},
